@@ -62,6 +62,12 @@ CHECKS = {
             "stored on shared elements/classes.  The interpreter's scheduler, the GIL and bytecode atomicity are runtime: the stress run (8-16 threads, switch interval "
             "1e-6, yielding bind and format checkers, outcomes vs the same call alone on a fresh tree, dump before/after) can only sample schedules.",
             "partial by nature: schedule-independence of the logic is proved; the runtime scheduler is sampled"),
+    "C15": ("Coq theorems about ObjectMeta.__new__ (Meta.meta_new): flattening, keyword-by-keyword merge rule, property override/inheritance, isolation frame + write-set obligation + vm_compute correspondence of every class declaration + child/flat/parent oracle",
+            "C15_subclass_is_flat_class, C15_keyword_source, C15_properties hold for every parent, passed keywords and class body; C15_isolation_frame + "
+            "C15_no_shared_writes cover 'never changes the parent'.  Meta.meta_new is tied to the code by rebuilding every generated class declaration in Coq and "
+            "comparing with the class ObjectMeta.__new__ built, and by the signature table; the oracle compares child vs the flat class (verdicts, serialization, ==), "
+            "isinstance of all ancestors, and ancestors before/after defining, using and reconfiguring the child.",
+            "full on the model of class construction; verdict equality child/flat follows because both are the same model class"),
 }
 
 REASONS_PENDING = "check under construction in this session: not yet claimed"
